@@ -82,6 +82,7 @@ type c13Run struct {
 	verb                bool
 	os                  []*c13Oracle
 	slashes, lifecycles int
+	lastRec             map[int]string
 	joined              map[string]uint64 // model: height at which the oracle last came online (bond or rejoin)
 	wasOnline           map[string]bool
 	valSlashed          bool // a validator was slashed: share/token rate != 1, share conversions truncate
@@ -178,6 +179,21 @@ func (r *c13Run) checkIndexes(what string) {
 	if nb != len(records) || ne != len(records) {
 		r.res.Violate("C13/index-count-mismatch", "%s: %d records, %d bridger index entries, %d external index entries", what, len(records), nb, ne)
 	}
+	// what is recorded as an online oracle's stake (its voting power and the base of its penalties) is
+	// held for it: delegated, unbonding or liquid at its delegate address. (Validator slashing takes
+	// from the delegation without touching the record: histories with a slashed validator are exempt.)
+	if !r.valSlashed {
+		for i, m := range r.os {
+			rec, ok := records[m.o.Oracle.Bech32()]
+			if !ok || !rec.Online {
+				continue
+			}
+			if held := r.total(m.o); rec.DelegateAmount.GT(held.AddRaw(2)) {
+				l, d, u := r.stakeOf(m.o)
+				r.res.Violate("C13/recorded-stake-not-held", "%s: online oracle %d has a recorded stake of %s (its voting power) but only %s is held for it (liquid %s, delegated %s, unbonding %s)", what, i, rec.DelegateAmount, held, l, d, u)
+			}
+		}
+	}
 	// bonded records only for governance-approved addresses or removed (offline) ones
 	threshold := r.b.K.GetOracleDelegateThreshold(r.c.Ctx).Amount
 	max := threshold.MulRaw(r.b.K.GetOracleDelegateMultiple(r.c.Ctx))
@@ -195,6 +211,21 @@ func (r *c13Run) checkIndexes(what string) {
 // online or an offline oracle came back online. It is the reference for "created after it joined";
 // the stored start height is what is being checked, not what is trusted.
 func (r *c13Run) trackJoins() {
+	if r.verb {
+		for i, m := range r.os {
+			if rec, ok := r.b.K.GetOracle(r.c.Ctx, m.o.Oracle.Acc()); ok {
+				l, d, u := r.stakeOf(m.o)
+				line := fmt.Sprintf("o%d online=%v recorded=%s slashTimes=%d start=%d | liquid=%s delegated=%s unbonding=%s", i, rec.Online, rec.DelegateAmount, rec.SlashTimes, rec.StartHeight, l, d, u)
+				if r.lastRec == nil {
+					r.lastRec = map[int]string{}
+				}
+				if r.lastRec[i] != line {
+					r.lastRec[i] = line
+					fmt.Printf("  [h=%d] %s\n", r.c.Height, line)
+				}
+			}
+		}
+	}
 	if r.joined == nil {
 		r.joined, r.wasOnline = map[string]uint64{}, map[string]bool{}
 	}
